@@ -22,6 +22,10 @@ pub struct Stack {
     /// Stack Pointer. SP points to the top value to be pushed onto the stack,
     /// This value backs the SP register of the VM
     sp: usize,
+
+    /// Highest value of sp reached by a push (verification hook)
+    #[cfg(feature = "verif")]
+    verif_hw: usize,
 }
 
 impl Stack {
@@ -30,6 +34,8 @@ impl Stack {
         Stack {
             stack: vec![VCell::undefined(); 256],
             sp: 0,
+            #[cfg(feature = "verif")]
+            verif_hw: 0,
         }
     }
 
@@ -144,6 +150,10 @@ impl Stack {
             Some(slot) => {
                 *slot = vcell.into();
                 self.sp += 1;
+                #[cfg(feature = "verif")]
+                if self.sp > self.verif_hw {
+                    self.verif_hw = self.sp;
+                }
             }
             None => {
                 self.grow();
@@ -186,6 +196,8 @@ impl Stack {
         Stack {
             stack: self.stack[0..self.sp + 1].to_vec(),
             sp: self.sp,
+            #[cfg(feature = "verif")]
+            verif_hw: 0,
         }
     }
 
@@ -198,6 +210,22 @@ impl Stack {
             .0
             .clone_from_slice(&cont.stack);
         self.sp = cont.sp;
+        #[cfg(feature = "verif")]
+        if self.sp > self.verif_hw {
+            self.verif_hw = self.sp;
+        }
+    }
+}
+
+/// Verification hooks (feature `verif`).
+#[cfg(feature = "verif")]
+impl Stack {
+    pub fn verif_high_water(&self) -> usize {
+        self.verif_hw
+    }
+
+    pub fn verif_reset_high_water(&mut self) {
+        self.verif_hw = self.sp;
     }
 }
 
